@@ -429,6 +429,40 @@ func (ex *Exec) verifCall(fn *ssa.Function, args []Value, fr *Frame) Value {
 			return ex.i64(0)
 		}
 		return ex.i64(int64(len(a.Arr.Val.(ArrayV))))
+	case "verifWatchLock":
+		// verifWatchLock(obj, mutex, exemptFieldNames...): from now on every access to a field of *obj must
+		// happen with the mutex held (lock-set discipline; sequential harnesses)
+		op := args[0].(*IfaceV).Val.(*Pointer)
+		var mp *Pointer
+		switch m := args[1].(*IfaceV).Val.(type) {
+		case *Pointer:
+			mp = m
+		}
+		if op.IsNil() || mp == nil || mp.IsNil() {
+			panic(unsupported("verifWatchLock on nil"))
+		}
+		w := &lockWatch{mutex: mp, exempt: map[int]bool{}, name: typeStr(args[0].(*IfaceV).Typ)}
+		if st, ok := args[0].(*IfaceV).Typ.(*types.Pointer).Elem().Underlying().(*types.Struct); ok {
+			names := map[string]bool{}
+			if len(args) > 2 {
+				for _, n := range ex.stringSliceElems(args[2]) {
+					g, _ := ex.goString(n)
+					names[g] = true
+				}
+			}
+			for k := 0; k < st.NumFields(); k++ {
+				if names[st.Field(k).Name()] {
+					w.exempt[k] = true
+				}
+			}
+		}
+		ex.watchLock[op.Obj] = w
+		return nil
+	case "verifUnlockedAccesses":
+		if n, ok := ex.ghost["unlockedAccesses"].(*Term); ok {
+			return n
+		}
+		return ex.i64(0)
 	case "verifFreezeWhenStored":
 		// verifFreezeWhenStored(&cell): an object whose address is stored into the cell becomes read-only
 		p := args[0].(*IfaceV).Val.(*Pointer)
